@@ -24,6 +24,7 @@ type c07W struct {
 	Graph       *model.GraphData `json:"graph,omitempty"` // shape == explicit
 	Prog        []string         `json:"prog"`            // protojson statements
 	CancelAfter int              `json:"cancel_after"`    // -1: never
+	WriteAfter  int              `json:"write_after,omitempty"` // > 0: the reading client deletes an absent vertex after that many rows
 	Confirmed   bool             `json:"confirmed_at_production_constants,omitempty"`
 }
 
@@ -189,6 +190,8 @@ func genC07(r *Rng, tier string) *c07W {
 	w.Prog = gen.StmtsJSON(prog)
 	if r.Chance(30) {
 		w.CancelAfter = r.Intn(6)
+	} else if r.Chance(15) {
+		w.WriteAfter = 1 + r.Intn(4)
 	}
 	return w
 }
@@ -246,6 +249,11 @@ func shrinkC07(w *c07W) []interface{} {
 		n.CancelAfter = -1
 		out = append(out, n)
 	}
+	if w.WriteAfter > 1 {
+		n := cp()
+		n.WriteAfter = 1
+		out = append(out, n)
+	}
 	if w.Run.Policy != 0 {
 		n := cp()
 		n.Run.Policy, n.Run.StarveSite, n.Run.StarveIdx = 0, "", 0
@@ -268,6 +276,9 @@ func execC07(w *c07W, x *Exec) *Outcome {
 	}
 	if w.CancelAfter >= 0 {
 		o.Count("fault:client_cancel_configured", 1)
+	}
+	if w.WriteAfter > 0 {
+		o.Count("fault:reader_writes_mid_stream", 1)
 	}
 	if simrt.Policy(w.Run.Policy) == simrt.PolStarve {
 		o.Count("fault:slow_stage_or_consumer", 1)
@@ -325,10 +336,10 @@ func c07Once(w *c07W, x *Exec, stmts []*gripql.GraphStatement, rc RunCfg, scale 
 	if cfg.MaxSteps == 0 {
 		cfg.MaxSteps = 3000000
 	}
-	tr := runTraversal(x, cfg, gd, stmts, travOpts{CancelAfter: w.CancelAfter})
+	tr := runTraversal(x, cfg, gd, stmts, travOpts{CancelAfter: w.CancelAfter, WriteAfter: w.WriteAfter})
 	if tr.Bubble.Verdict == simrt.Budget && simrt.Policy(rc.Policy) != simrt.PolRR {
 		cfg.Policy = simrt.PolRR
-		tr = runTraversal(x, cfg, gd, stmts, travOpts{CancelAfter: w.CancelAfter})
+		tr = runTraversal(x, cfg, gd, stmts, travOpts{CancelAfter: w.CancelAfter, WriteAfter: w.WriteAfter})
 	}
 	if tr.Bubble.Infra != "" {
 		return &Violation{Signature: "infra:" + tr.Bubble.Infra}, tr
@@ -353,6 +364,9 @@ func c07Once(w *c07W, x *Exec, stmts []*gripql.GraphStatement, rc RunCfg, scale 
 		sig := cls + "/prog=" + names
 		if w.CancelAfter >= 0 {
 			sig += "+cancel"
+		}
+		if w.WriteAfter > 0 {
+			sig += "+write-mid-stream"
 		}
 		return &Violation{
 			Class: cls, Signature: sig,
